@@ -84,11 +84,18 @@ def rule_advance(ctx):
         cd = {short(c[2][1]): c[2] for c in calls}
         rm, dr, da, cr = [cd[n] for n in ORDER]
         it = ('param', 2, f.local_name(2))
+        # by what each argument is (an extra accessor / closure argument may sit between them), in the documented order
+        def firsts(c_):
+            return [(field_names(a_)[:1] or [None])[0] for a_ in c_[2][1:]]
+
+        def has_it(c_):
+            return any(strip_refs(a_) == it for a_ in c_[2][1:])
+        frm = [x for x in firsts(rm) if x in ('cum_regret', 'strat', 'cum_strat')]
         checks = [
-            ('regret_match(cum_regret, strat)', field_names(rm[2][1])[:1] == ['cum_regret'] and field_names(rm[2][2])[:1] == ['strat']),
-            ('discount_cum_regret(it, cum_regret)', strip_refs(dr[2][1]) == it and field_names(dr[2][2])[:1] == ['cum_regret']),
-            ('discount_average_strat(.., cum_strat)', field_names(da[2][2])[:1] == ['cum_strat']),
-            ('cum_regret(it, cum_regret)', strip_refs(cr[2][1]) == it and field_names(cr[2][2])[:1] == ['cum_regret']),
+            ('regret_match(cum_regret, strat)', frm == ['cum_regret', 'strat']),
+            ('discount_cum_regret(it, cum_regret)', has_it(dr) and [x for x in firsts(dr) if x in ('cum_regret', 'strat', 'cum_strat')] == ['cum_regret']),
+            ('discount_average_strat(.., cum_strat)', [x for x in firsts(da) if x in ('cum_regret', 'strat', 'cum_strat')] == ['cum_strat']),
+            ('cum_regret(it, cum_regret)', has_it(cr) and [x for x in firsts(cr) if x in ('cum_regret', 'strat', 'cum_strat')] == ['cum_regret']),
         ]
         for what, ok in checks:
             ctx.verdict(ok, rule, '%s:%s:%s' % (rule, nm, what.split('(')[0]), 'argument provenance: %s with it the unchanged parameter' % what, f.where(0), 'ok: %s' % ok,
@@ -518,6 +525,27 @@ def rule_regret_update(ctx):
                 return ('val', ('cidx', ('param', 3, f.local_name(3)), k, False))
             want_one = {tuple(sorted((pc, reach(1)), key=repr)): 1.0}
             want_two = {tuple(sorted((pc, reach(0)), key=repr)): -1.0}
+            if d['One'] != want_one or d['Two'] != want_two:
+                # the two reaches travelling in one parameter (a `Reach { chance, players }` record): identified by shape —
+                # one factor is element k of a pair rooted in a parameter, the other a scalar rooted in a parameter that
+                # is the same in both arms
+                def split_(p_):
+                    if p_ is None or len(p_) != 1:
+                        return None
+                    (mono, c_), = p_.items()
+                    if len(mono) != 2 or any(a_[0] != 'val' for a_ in mono):
+                        return None
+                    idx_ = [a_[1] for a_ in mono if strip_refs(a_[1])[0] == 'cidx']
+                    oth_ = [a_[1] for a_ in mono if strip_refs(a_[1])[0] != 'cidx']
+                    rooted = lambda x_: q.find_sub(x_, lambda y_: y_[0] == 'param') is not None
+                    if len(idx_) != 1 or len(oth_) != 1 or not rooted(idx_[0]) or not rooted(oth_[0]):
+                        return None
+                    i_ = strip_refs(idx_[0])
+                    return (norm(i_[1]), i_[2], norm(oth_[0]), c_)
+                so, st = split_(d['One']), split_(d['Two'])
+                if so is not None and st is not None and so[0] == st[0] and so[2] == st[2] and so[0] != so[2]:
+                    want_one = d['One'] if (so[1], so[3]) == (1, 1.0) else want_one
+                    want_two = d['Two'] if (st[1], st[3]) == (0, -1.0) else want_two
             ctx.verdict(d['One'] == want_one, rule, rule + ':multiplier:One', 'for player one the counterfactual multiplier is +p_chance * p_player[1] (chance and *opponent* reach)', f.where(0), 'form: %s' % e4.show_poly(d['One']),
                         breaks='regrets are weighted with the player\'s own reach / without chance reach: not counterfactual regret')
             ctx.verdict(d['Two'] == want_two, rule, rule + ':multiplier:Two', 'for player two it is -p_chance * p_player[0] (sign flipped: payoffs are player one\'s)', f.where(0), 'form: %s' % e4.show_poly(d['Two']),
@@ -558,7 +586,7 @@ def rule_regret_update(ctx):
                     okadd = len(atoms) == 2 and ('val', mult) in atoms and any(a[0] == 'val' and (a[1][0] == 'var' or q.is_call(a[1], 'call')) for a in atoms if a != ('val', mult))
                     # the target is the per-action cumulative regret item
                     tgt = strip_refs(e[2][0])
-                    okadd = okadd and q.find_sub(tgt, lambda s: s[0] == 'param' and (s[1] == 5 or (via_closure and 'Iterator' in str(f.locals[s[1]]['ty']) or via_closure and 'impl' in str(f.locals[s[1]]['ty'])))) is not None
+                    okadd = okadd and q.find_sub(tgt, lambda s: s[0] == 'param' and (s[1] == 5 or 'IntoIterator' in str(f.locals[s[1]]['ty']) or (via_closure and 'Iterator' in str(f.locals[s[1]]['ty']) or via_closure and 'impl' in str(f.locals[s[1]]['ty'])))) is not None
             # every action is accumulated: inside the loop over the actions the update is not conditional on data
             for bi, t, e in adds:
                 lp = f.loop_of(bi)
